@@ -18,16 +18,20 @@ structure Inv (s : St) : Prop where
   closed : 0 < s.closeCalls → s.st = false ∧ s.cf = false ∧
     s.fnCalls = (if s.hadFn = true ∧ s.cur ≠ .closing true then 1 else 0) ∧
     (s.cur = .closing true → s.hadFn = true) ∧ (∀ e, s.cur = .closeRan e → s.hadFn = true)
+  /-- a result of the wrapped stream is only ever pending while the stream field is set -/
+  io : (∀ n e d, s.cur = .gotRead n e d → s.st = true) ∧ (∀ n e, s.cur = .gotWrite n e → s.st = true)
 
 theorem init_inv : Inv ({} : St) :=
-  ⟨fun _ => rfl, rfl, fun _ => ⟨rfl, rfl, (by intro b h; cases h), (by intro e h; cases h)⟩, by intro h; simp at h⟩
+  ⟨fun _ => rfl, rfl, fun _ => ⟨rfl, rfl, (by intro b h; cases h), (by intro e h; cases h)⟩, by intro h; simp at h,
+   ⟨(by intro n e d h; cases h), (by intro n e h; cases h)⟩⟩
 
 /-- changing the program counter among states that are not part of `Close` keeps the invariant -/
 theorem inv_cur (s : St) (c : Cur) (t : Bool) (hi : Inv s) (ht : t = true → s.closeCalls = 0)
     (h1 : ∀ b, c ≠ .closing b) (h2 : ∀ e, c ≠ .closeRan e)
-    (h3 : ∀ b, s.cur ≠ .closing b) (hl : s.live = true) :
+    (h3 : ∀ b, s.cur ≠ .closing b) (hl : s.live = true)
+    (h4 : (∀ n e d, c = .gotRead n e d → s.st = true) ∧ (∀ n e, c = .gotWrite n e → s.st = true)) :
     Inv { s with cur := c, touched := s.touched || (t && decide (0 < s.closeCalls)) } := by
-  refine ⟨by intro h; simp [hl] at h, ?_, ?_, ?_⟩
+  refine ⟨by intro h; simp [hl] at h, ?_, ?_, ?_, h4⟩
   · simp only [hi.untouched, Bool.false_or]
     cases t with
     | false => rfl
@@ -49,11 +53,12 @@ theorem step_inv (s : St) (o : Obs) (s' : St) (hi : Inv s) (hs : step s o = some
   cases o with
   | new wr st cf =>
     simp only [step] at hs; split at hs <;> simp at hs; subst hs
-    exact ⟨by intro h; simp at h, rfl, fun _ => ⟨rfl, rfl, (by intro b h; cases h), (by intro e h; cases h)⟩, by intro h; simp at h⟩
+    exact ⟨by intro h; simp at h, rfl, fun _ => ⟨rfl, rfl, (by intro b h; cases h), (by intro e h; cases h)⟩, by intro h; simp at h,
+      ⟨(by intro n e d h; cases h), (by intro n e h; cases h)⟩⟩
   | callRead len =>
     simp only [step] at hs; split at hs <;> simp at hs; subst hs
     rename_i h
-    have := inv_cur s (.reading len) false hi (by simp) (by simp) (by simp) (by simp [h.2.2]) h.1
+    have := inv_cur s (.reading len) false hi (by simp) (by simp) (by simp) (by simp [h.2.2]) h.1 (by simp)
     simpa using this
   | cbRead len n err data =>
     simp only [step] at hs; split at hs <;> try simp at hs
@@ -63,20 +68,20 @@ theorem step_inv (s : St) (o : Obs) (s' : St) (hi : Inv s) (hs : step s o = some
       cases hcc : s.closeCalls with
       | zero => rfl
       | succ k => have := (hi.closed (by omega)).1; rw [hg.2.1] at this; cases this
-    have := inv_cur s (.gotRead n err data) true hi (fun _ => h0) (by simp) (by simp) (by simp [hc]) (live_of_cur s hi (by simp [hc]))
+    have := inv_cur s (.gotRead n err data) true hi (fun _ => h0) (by simp) (by simp) (by simp [hc]) (live_of_cur s hi (by simp [hc])) (by simp [hg.2.1])
     simpa using this
   | retRead n err data =>
     simp only [step] at hs; split at hs <;> try simp at hs
     · rename_i hc; obtain ⟨_, rfl⟩ := hs
-      have := inv_cur s .idle false hi (by simp) (by simp) (by simp) (by simp [hc]) (live_of_cur s hi (by simp [hc]))
+      have := inv_cur s .idle false hi (by simp) (by simp) (by simp) (by simp [hc]) (live_of_cur s hi (by simp [hc])) (by simp)
       simpa using this
     · rename_i hc; obtain ⟨_, rfl⟩ := hs
-      have := inv_cur s .idle false hi (by simp) (by simp) (by simp) (by simp [hc]) (live_of_cur s hi (by simp [hc]))
+      have := inv_cur s .idle false hi (by simp) (by simp) (by simp) (by simp [hc]) (live_of_cur s hi (by simp [hc])) (by simp)
       simpa using this
   | callWrite data =>
     simp only [step] at hs; split at hs <;> simp at hs; subst hs
     rename_i h
-    have := inv_cur s (.writing data) false hi (by simp) (by simp) (by simp) (by simp [h.2.2]) h.1
+    have := inv_cur s (.writing data) false hi (by simp) (by simp) (by simp) (by simp [h.2.2]) h.1 (by simp)
     simpa using this
   | cbWrite n err data =>
     simp only [step] at hs; split at hs <;> try simp at hs
@@ -86,20 +91,21 @@ theorem step_inv (s : St) (o : Obs) (s' : St) (hi : Inv s) (hs : step s o = some
       cases hcc : s.closeCalls with
       | zero => rfl
       | succ k => have := (hi.closed (by omega)).1; rw [hg.2] at this; cases this
-    have := inv_cur s (.gotWrite n err) true hi (fun _ => h0) (by simp) (by simp) (by simp [hc]) (live_of_cur s hi (by simp [hc]))
+    have := inv_cur s (.gotWrite n err) true hi (fun _ => h0) (by simp) (by simp) (by simp [hc]) (live_of_cur s hi (by simp [hc])) (by simp [hg.2])
     simpa using this
   | retWrite n err =>
     simp only [step] at hs; split at hs <;> try simp at hs
     · rename_i hc; obtain ⟨_, rfl⟩ := hs
-      have := inv_cur s .idle false hi (by simp) (by simp) (by simp) (by simp [hc]) (live_of_cur s hi (by simp [hc]))
+      have := inv_cur s .idle false hi (by simp) (by simp) (by simp) (by simp [hc]) (live_of_cur s hi (by simp [hc])) (by simp)
       simpa using this
     · rename_i hc; obtain ⟨_, rfl⟩ := hs
-      have := inv_cur s .idle false hi (by simp) (by simp) (by simp) (by simp [hc]) (live_of_cur s hi (by simp [hc]))
+      have := inv_cur s .idle false hi (by simp) (by simp) (by simp) (by simp [hc]) (live_of_cur s hi (by simp [hc])) (by simp)
       simpa using this
   | callClose =>
     simp only [step] at hs; split at hs <;> simp at hs; subst hs
     rename_i h
-    refine ⟨by intro hl; simp [h.1] at hl, hi.untouched, by intro h0; simp at h0, fun _ => ?_⟩
+    refine ⟨by intro hl; simp [h.1] at hl, hi.untouched, by intro h0; simp at h0, fun _ => ?_,
+      ⟨(by intro n e d h; cases h), (by intro n e h; cases h)⟩⟩
     by_cases h0 : s.closeCalls = 0
     · obtain ⟨a, b, _, _⟩ := hi.opened h0
       refine ⟨rfl, rfl, ?_, ?_, (by intro e he; cases he)⟩
@@ -119,18 +125,19 @@ theorem step_inv (s : St) (o : Obs) (s' : St) (hi : Inv s) (hs : step s o = some
     obtain ⟨a, b, c, d, _⟩ := hi.closed hpos
     have hlv := live_of_cur s hi (by simp [hc])
     refine ⟨by intro hl; simp [hlv] at hl, hi.untouched, by intro h0; simp only at h0; omega,
-      fun _ => ⟨a, b, ?_, (by intro h; cases h), fun _ _ => d hc⟩⟩
+      fun _ => ⟨a, b, ?_, (by intro h; cases h), fun _ _ => d hc⟩,
+      ⟨(by intro n e d h; cases h), (by intro n e h; cases h)⟩⟩
     simp [hc] at c
     simp [c, d hc]
   | retClose err =>
     simp only [step] at hs; split at hs <;> try simp at hs
     · rename_i e hc; obtain ⟨_, rfl⟩ := hs
-      refine ⟨fun _ => rfl, hi.untouched, ?_, ?_⟩
+      refine ⟨fun _ => rfl, hi.untouched, ?_, ?_, ⟨(by intro n e d h; cases h), (by intro n e h; cases h)⟩⟩
       · intro h0; exact absurd hc ((hi.opened h0).2.2.2 e)
       · intro h0; obtain ⟨a, b, c, _, _⟩ := hi.closed h0
         exact ⟨a, b, by simpa [hc] using c, (by intro h; cases h), (by intro e h; cases h)⟩
     · rename_i hc; obtain ⟨_, rfl⟩ := hs
-      refine ⟨fun _ => rfl, hi.untouched, ?_, ?_⟩
+      refine ⟨fun _ => rfl, hi.untouched, ?_, ?_, ⟨(by intro n e d h; cases h), (by intro n e h; cases h)⟩⟩
       · intro h0; exact absurd hc ((hi.opened h0).2.2.1 false)
       · intro h0; obtain ⟨a, b, c, _, _⟩ := hi.closed h0
         exact ⟨a, b, by simpa [hc] using c, (by intro h; cases h), (by intro e h; cases h)⟩
